@@ -12,7 +12,12 @@ import (
 	"golang.org/x/tools/go/ssa"
 )
 
-func init() { register("C12", "other", runC12) }
+func init() {
+	register("C12", "other", func(p *Program, r *Report) {
+		runC12(p, r)
+		checkBoundsProven(p, r, "C12.B1", "urlset.go")
+	})
+}
 
 // boolTable evaluates a package-level [256]bool filled by constant-index
 // stores. Returns the set of indices set to true and where the stores are.
